@@ -83,6 +83,29 @@ func execFpRT(in KV) string {
 			return "err=pre:capture-" + marshalErrClass(err)
 		}
 	}
+	if cg, ok := in["capgrease"]; ok {
+		// a capture whose GREASE key share carries a key_exchange of another length than Chrome's single
+		// byte (RFC 8701 allows any): connection 1 re-marshalled with that entry edited
+		n := 0
+		fmt.Sscanf(cg, "%d", &n)
+		done := false
+		for _, e := range uc1.Extensions {
+			if k, ok := e.(*tls.KeyShareExtension); ok {
+				for i := range k.KeyShares {
+					g := uint16(k.KeyShares[i].Group)
+					if (g>>8) == (g&0xff) && g&0xf == 0xa {
+						k.KeyShares[i].Data = NewRng(rseed ^ 0x6ea5e).Bytes(n)
+						done = true
+					}
+				}
+			}
+		}
+		if done {
+			if err := uc1.MarshalClientHelloNoECH(); err != nil {
+				return "err=pre:capture-" + marshalErrClass(err)
+			}
+		}
+	}
 	raw1 := uc1.HandshakeState.Hello.Raw
 	state1 := helloState(uc1)
 	flags := in["flags"]
@@ -151,7 +174,8 @@ func c06GenSpec(r *Rng, blunt bool) (exts []string, vmax int) {
 	if tls13 {
 		vmax = 0x0304
 		exts = append(exts, "versions|"+Pick(r, []string{"772,771", "2570,772,771", "772", "772,771,770,769"}),
-			"key_share|"+Pick(r, []string{"29:e", "2570:00,29:e", "23:e", "2570:00,4588:e,29:e", "29:e,23:e", "29:" + hx(r.Bytes(32)), "24:e"}), "psk_modes|1")
+			"key_share|"+Pick(r, []string{"29:e", "2570:00,29:e", "23:e", "2570:00,4588:e,29:e", "29:e,23:e", "29:" + hx(r.Bytes(32)), "24:e",
+				"2570:" + hx(r.Bytes(Pick(r, []int{1, 2, 3, 4, 32, 255, 256}))) + ",29:e", "29:e,2570:" + hx(r.Bytes(Pick(r, []int{2, 4, 32}))), "2570:e,29:e"}), "psk_modes|1")
 	} else if r.Intn(3) == 0 {
 		exts = append(exts, "versions|"+Pick(r, []string{"771", "771,770", "771,770,769"}))
 	}
@@ -227,6 +251,9 @@ func genFpRT(r *Rng, i int, tier string) string {
 	if r.Intn(12) == 0 {
 		t += " capcomp=" + Pick(r, []string{"0100", "0001", "01"})
 	}
+	if r.Intn(8) == 0 {
+		t += fmt.Sprintf(" capgrease=%d", Pick(r, []int{0, 1, 2, 4, 32, 256}))
+	}
 	if pskIDs[id] && r.Bool() {
 		t += fmt.Sprintf(" fakepsk=%d", Pick(r, []int{1, 16, 100}))
 	} else if ticketIDs[id] && r.Intn(4) == 0 {
@@ -235,6 +262,99 @@ func genFpRT(r *Rng, i int, tier string) string {
 	return t
 }
 
+// ---- fp_bound: boundary sizes of every variable part ----
+
+// c06BoundSizes: sizes of the variable part of one extension of a capture (0/1-element lists, the
+// Chrome single byte and its neighbours, a key-sized part, both sides of the one-byte length limit).
+var c06BoundSizes = []int{1, 2, 3, 4, 5, 8, 32, 33, 64, 254, 255, 256, 257, 300}
+
+// c06BoundKinds: extension kinds with a variable-size part (numbers as in genExtDesc); 100 = the GREASE
+// entry of key_share, 101 = a second GREASE extension body (ApplyPreset forces [0]: not representable otherwise).
+var c06BoundKinds = []int{0, 2, 3, 4, 6, 7, 8, 10, 12, 14, 15, 17, 18, 19, 21, 24, 25, 26, 27, 28, 100, 101}
+
+// genFpBound: exhaustive sweep kind x size x variant; the swept extension sits inside a spec that uTLS
+// emits and (for sizes within the type's limits) can represent again.
+func genFpBound(r *Rng, i int, tier string) string {
+	nk, ns := len(c06BoundKinds), len(c06BoundSizes)
+	if i >= nk*ns*2 {
+		return ""
+	}
+	kind, s, variant := c06BoundKinds[i%nk], c06BoundSizes[(i/nk)%ns], i/(nk*ns)
+	base := map[int]string{0: "sni|-", 2: "curves|2570,29,23", 4: "sigalgs|2052,1027", 18: "versions|2570,772,771", 15: "key_share|2570:00,29:e", 17: "psk_modes|1"}
+	var swept, last string
+	switch kind {
+	case 0: // the name comes from the Config: a server name of s bytes
+		swept = ""
+	case 100:
+		g := "2570:" + hxe(r.Bytes(s))
+		if variant == 1 {
+			base[15] = "key_share|29:e," + g
+		} else {
+			base[15] = "key_share|" + g + ",29:e"
+		}
+	case 101:
+		swept = "grease|2570|" + hx(r.Bytes(s%7))
+		last = "grease|2570|" + hx(r.Bytes(s))
+		if variant == 1 && s == 1 {
+			last = "grease|2570|00"
+		}
+	case 27:
+		if variant == 0 {
+			last = fmt.Sprintf("psk|1|0|0|%s:%d|%s", hxe(r.Bytes(s)), r.U64()&0xffffffff, hxe(r.Bytes(32)))
+		} else {
+			b := s
+			if b < 32 {
+				b = 32
+			}
+			if b > 255 {
+				b = 255
+			}
+			last = fmt.Sprintf("psk|1|0|0|%s:%d|%s", hxe(r.Bytes(8)), r.U64()&0xffffffff, hxe(r.Bytes(b)))
+		}
+	case 15: // real shares with given keys of that size
+		base[15] = "key_share|2570:00," + fmt.Sprintf("%d:%s", []int{29, 23}[variant], hxe(r.Bytes(s)))
+	default:
+		if _, ok := base[kind]; ok {
+			delete(base, kind)
+		}
+		swept = genBoundaryExt(r, kind, max(s, 2), variant)
+		if kind == 2 {
+			swept = "curves|29,23," + strings.TrimPrefix(swept, "curves|")
+		}
+		if kind == 18 {
+			swept = "versions|772,771," + strings.TrimPrefix(swept, "versions|")
+		}
+	}
+	var exts []string
+	for _, k := range []int{0, 2, 4, 18, 15, 17} {
+		if d, ok := base[k]; ok {
+			exts = append(exts, d)
+		}
+	}
+	if swept != "" {
+		at := 1 + r.Intn(len(exts))
+		exts = append(exts[:at], append([]string{swept}, exts[at:]...)...)
+	}
+	if r.Bool() {
+		exts = append(exts, "padding|0|0")
+	}
+	if last != "" {
+		exts = append(exts, last)
+	}
+	flags := []string{"-", "p", "b", "bp"}[(i/3)%4]
+	if kind == 10 || kind == 19 {
+		flags = []string{"b", "bp"}[(i/3)%2]
+	}
+	sni := hostOfLen(r, 4+r.Intn(30))
+	if kind == 0 {
+		sni = hostOfLen(r, s)
+	}
+	sni2 := hostOfLen(r, len(sni))
+	return fmt.Sprintf("id=Custom exts=%s pol=%s suites=2570,4865,4866,49195 comp=00 vmax=772 flags=%s sni=%s sni2=%s alpn=- omitpsk=1 quic=0 rseed=%d bound=%d:%d",
+		joinSemi(exts), Pick(r, []string{"boring", "none"}), flags, hx([]byte(sni)), hx([]byte(sni2)), r.U64()>>1, kind, s)
+}
+
 func init() {
 	register(&Family{Name: "fp_rt", Gen: genFpRT, Exec: execFpRT})
+	register(&Family{Name: "fp_bound", Gen: genFpBound, Exec: execFpRT})
 }
